@@ -25,6 +25,7 @@ void h_trace(uint32_t phase, uint32_t stmt) {
 void h_printed(uint64_t line) { if (printed_n < 8) printed_line[printed_n] = line; printed_n++; }
 uint32_t h_plugin_action(uint32_t pre) { return plug[pre ? 0 : 1]; }
 uint32_t h_registry_outcome(uint32_t what, uint32_t rep) { (void)what; (void)rep; return 0; }
+void h_rep_summary(uint32_t isFailure, uint64_t failures, uint64_t run, uint64_t ignored) { (void)isFailure; (void)failures; (void)run; (void)ignored; }
 
 #ifdef LL2C_TRANSLATED
 extern uint32_t _ZL13jmp_buf_index;     /* file-static of src/Platforms/Gcc/UtestPlatform.cpp, visible at C level */
